@@ -7,6 +7,11 @@
 //!   reached through the point `bes_upgrade_window`.  The model's threshold
 //!   is 2, the code's 32: the set is pre-filled with 30 elements.
 //! * `--mode stress`: free-running inserters + an iterating thread.
+//! * `--mode mapstress`: the map level (`InMemoryKeyOfSetMap`, callee ->
+//!   set of callers): several threads record the FIRST element of a fresh
+//!   key at the same moment (the set is created by whoever comes first; a
+//!   concurrent reader may create it too); afterwards every recorded element
+//!   must be a member.
 //!
 //! Output: ndjson for specs/BackwardEdgeSetTrace.tla.
 
@@ -223,6 +228,51 @@ fn run_stress(seed: u64, threads: usize, per_thread: u64, prefill: u64, log: &Ar
     log.push(json!({"e":"reset"}));
 }
 
+#[derive(Debug, Clone, Copy, PartialEq, Eq, PartialOrd, Ord, Hash, qbice::Identifiable)]
+struct BackCol;
+impl qbice::storage::kv_database::KeyOfSetColumn for BackCol {
+    type Key = u64;
+    type Element = QueryID;
+}
+
+fn run_map_stress(seed: u64, threads: usize, keys: u64, log: &Arc<Log>) {
+    use qbice::storage::{key_of_set_map::{KeyOfSetMap, in_memory::InMemoryKeyOfSetMap}, write_batch::FauxWriteBatch};
+    let map: Arc<InMemoryKeyOfSetMap<BackCol, Set>> = Arc::new(InMemoryKeyOfSetMap::new());
+    let go = Arc::new(std::sync::Barrier::new(threads + 1));
+    let end = Arc::new(std::sync::Barrier::new(threads + 1));
+    let mut hs = Vec::new();
+    for t in 0..threads {
+        let (map, log, go, end) = (map.clone(), log.clone(), go.clone(), end.clone());
+        hs.push(std::thread::spawn(move || {
+            let mut wb = FauxWriteBatch;
+            for k in 0..keys {
+                go.wait();
+                let key = seed * 1_000_000 + k;
+                if t == 0 && k % 3 == 0 {
+                    // a reader of the same fresh key races with the writers
+                    let _ = futures::executor::block_on(map.get(&key)).count();
+                }
+                let x = key * 100 + t as u64;
+                futures::executor::block_on(map.insert(key, qid(x), &mut wb));
+                log.push(json!({"e":"ins_end","x":x}));
+                end.wait();
+            }
+        }));
+    }
+    for k in 0..keys {
+        go.wait();
+        end.wait();
+        let key = seed * 1_000_000 + k;
+        log.push(json!({"e":"iter_start"}));
+        let seen: Vec<u64> = futures::executor::block_on(map.get(&key)).map(|q| unq(&q)).collect();
+        log.push(json!({"e":"iter","seen":seen}));
+        log.push(json!({"e":"reset"}));
+    }
+    for h in hs {
+        let _ = h.join();
+    }
+}
+
 fn main() {
     let a = args();
     let mode = arg_str(&a, "mode", "schedules").to_string();
@@ -259,6 +309,11 @@ fn main() {
         for line in f.lines().filter(|l| !l.trim().is_empty()) {
             let b: Behaviour = serde_json::from_str(line).expect("behaviour");
             run_schedule(&b, &log);
+        }
+    } else if mode == "mapstress" {
+        let keys = arg_u64(&a, "keys", 500);
+        for (i, threads) in [2usize, 3, 8, 16].iter().enumerate() {
+            run_map_stress(seed * 10 + i as u64, *threads, keys, &log);
         }
     } else {
         let rounds = arg_u64(&a, "rounds", 50);
